@@ -5,7 +5,8 @@
 //
 // usage: deque <rand|dfs|replay> <arg> [maxruns]     scenario on stdin:
 //   owner s<id>:<iso> g<iso> ...      thief <iso> <iso> ...   (one line per thief)
-// Per run prints: run <i> / e <tid> <var> <kind> <a> <b> <ok> (accesses to head, tail, task_pool word) /
+// Per run prints: run <i> / e <tid> <var> <kind> <a> <b> <ok> <memory order> (accesses to head, tail, task_pool word) /
+//   f <tid> <order> (a std::atomic_thread_fence executed by a controlled thread; its position is relative to the e lines) /
 //   snap <head> <tail> <task ids in task_pool_ptr[head..tail), _ = nullptr>  (white box, after every owner operation; the
 //   cells of the array are plain memory, so their CONTENT is compared with the model's pool at the same trace position) /
 //   res <tid> <ids, -1 = nullptr> / mon <verdict> / sched <tids> / end
@@ -129,15 +130,16 @@ static bool run_once(verif::Schedule& sch, int run_idx, bool print) {
         const void* ah = (const void*)&g_slot->head; const void* at = (const void*)&g_slot->tail; const void* ap = (const void*)&g_slot->task_pool;
         for (auto& e : r.log) {
             if (e.kind == verif::K_NOTE && e.tag && std::string(e.tag) == "snap") { printf("snap %s\n", snaps[(size_t)e.a].c_str()); continue; }
+            if (e.kind == verif::K_FENCE) { printf("f %d %s\n", e.tid, verif::order_name(e.order)); continue; }
             if (e.kind > verif::K_FXOR) continue;
             if (e.addr == ah || e.addr == at) {
                 long long a = (long long)e.a, b = (long long)e.b;
                 if (e.kind == verif::K_LOAD || e.kind == verif::K_STORE) b = 0;
-                printf("e %d %s %s %lld %lld %d\n", e.tid, e.addr == ah ? "head" : "tail", verif::kind_name(e.kind), a, b, e.ok);
+                printf("e %d %s %s %lld %lld %d %s\n", e.tid, e.addr == ah ? "head" : "tail", verif::kind_name(e.kind), a, b, e.ok, verif::order_name(e.order));
             } else if (e.addr == ap) {
                 long long a = canon_pool(e.a, gens), b = 0;
                 if (e.kind == verif::K_CAS) b = canon_pool(e.b, gens);
-                printf("e %d pool %s %lld %lld %d\n", e.tid, verif::kind_name(e.kind), a, b, e.ok);
+                printf("e %d pool %s %lld %lld %d %s\n", e.tid, verif::kind_name(e.kind), a, b, e.ok, verif::order_name(e.order));
             }
         }
         for (size_t t = 0; t <= NT; ++t) { printf("res %zu", t); for (int v : res[t]) printf(" %d", v); printf("\n"); }
